@@ -83,7 +83,12 @@ def ob_find_re(pat, maxlen, timeout):
     def body(l0):
         tier = IntervalTier("t", [Interval(0.0, 1.0, l0), Interval(1.0, 2.0, "ab")], 0.0, 2.0)
         want = [i for i, l in enumerate([l0, "ab"]) if _ref_match(pat, l)]
-        return True if tier.find(pat, usingRE=True) == want else "regex match"
+        if tier.find(pat, usingRE=True) != want:
+            return "regex match"
+        # usingRE=True: the query IS a regular expression, whatever substrMatchFlag says
+        if tier.find(pat, True, True) != want or tier.find(pat, substrMatchFlag=False, usingRE=True) != want:
+            return "regex match with substrMatchFlag also given"
+        return True
 
     return Ob("find-re-%d" % REGEXES.index(pat), S("l0"), body, pre, timeout=timeout, funcs=FUNCS[:1], bounds="regex %r (re.I), symbolic label <= %d chars" % (pat, maxlen))
 
